@@ -304,6 +304,34 @@ const usersSchema = `{"parser_settings": {"version": "omni.2.1", "file_format_ty
    "u3": {"custom_func": {"name": "javascript_with_context", "args": [{"const": "JSON.parse(_node).v + ':' + Math.abs(-1)"}]}}
  }}}}`
 
+// namespace-prefixed XML; partner A and partner B bind the SAME namespace URI to different prefixes
+func nsSchema(p string) string {
+	return `{"parser_settings": {"version": "omni.2.1", "file_format_type": "xml"},
+ "transform_declarations": {"FINAL_OUTPUT": {"xpath": "/` + p + `:orders/` + p + `:order", "object": {
+   "id": {"xpath": "@id", "type": "int"},
+   "item": {"xpath": "` + p + `:item"},
+   "qty": {"xpath": "` + p + `:qty", "type": "int"},
+   "note": {"xpath": "` + p + `:note/@` + p + `:lang", "keep_empty_or_null": true},
+   "n": {"xpath": "count(` + p + `:*)", "type": "int"}
+ }}}}`
+}
+
+func genNSInput(p string) func(r *vh.Rng, n int) []byte {
+	return func(r *vh.Rng, n int) []byte {
+		var sb strings.Builder
+		fmt.Fprintf(&sb, `<%s:orders xmlns:%s="uri://example.com/orders">`, p, p)
+		for i := 0; i < n; i++ {
+			fmt.Fprintf(&sb, `<%s:order id="%d"><%s:item>%s</%s:item><%s:qty>%d</%s:qty><%s:note %s:lang="%s">n</%s:note></%s:order>`,
+				p, r.Between(1, 9999), p, r.PickStr("x", "abc", "héllo", "Q9", "日本"), p, p, r.Between(0, 99), p, p, p, r.PickStr("en", "de", "ja"), p, p)
+			if r.Chance(0.3) {
+				sb.WriteString("\n")
+			}
+		}
+		fmt.Fprintf(&sb, `</%s:orders>`, p)
+		return []byte(sb.String())
+	}
+}
+
 const xpathSchema = `{"parser_settings": {"version": "omni.2.1", "file_format_type": "xml"},
  "transform_declarations": {"FINAL_OUTPUT": {"xpath": "/r/n[matches(a, '^[a-zQx日hz0w]')]", "object": {
    "a": {"xpath": "a"},
@@ -433,6 +461,8 @@ func buildWorkload(sum *vh.Summary) *workload {
 	add("js", jsSchema, genJSInput)
 	add("js2", jsSchema2, genJSInput)
 	add("xpath", xpathSchema, genXMLInput)
+	add("nsA", nsSchema("a"), genNSInput("a"))
+	add("nsB", nsSchema("b"), genNSInput("b"))
 	add("ctx", ctxSchema, genJSInput)
 	add("shadow", shadowSchema, genJSInput)
 	add("users", usersSchema, genJSInput)
@@ -493,9 +523,53 @@ func genContention(r *vh.Rng, w *workload) (desc mixDesc) {
 	return
 }
 
+// formats mixes: tree formats (namespace-prefixed XML of two partners, JSON) and flat formats
+// (csv, csv2, fixed-length, fixedlength2, EDI) share the node pool: a node released by one format
+// is handed to another; the two XML partners bind one namespace URI to different prefixes
+func genFormats(r *vh.Rng, w *workload) (desc mixDesc) {
+	desc.Kind = "formats"
+	desc.Procs = []int{1, 2, 16}[r.Pick(3)]
+	desc.Goroutines = r.Between(4, 12)
+	desc.NodePool = true
+	desc.JSCache = "default"
+	var tree, flat []int
+	for i, s := range w.schemas {
+		desc.Schemas = append(desc.Schemas, s.Name)
+		switch s.Name {
+		case "nsA", "nsB", "fx-json", "fx-xml", "js":
+			tree = append(tree, i)
+			if s.Name == "nsA" || s.Name == "nsB" {
+				tree = append(tree, i, i)
+			}
+		case "fx-csv", "fx-csv2", "fx-edi", "fx-fixed-length", "fx-fixedlength2":
+			flat = append(flat, i)
+		}
+	}
+	desc.Jobs = make([][]job, desc.Goroutines)
+	for g := 0; g < desc.Goroutines; g++ {
+		for k, n := 0, r.Between(2, 4); k < n; k++ {
+			set := tree
+			if (g+k)%2 == 1 {
+				set = flat
+			}
+			si := set[r.Pick(len(set))]
+			in := w.gen[si](r, r.Between(8, 30))
+			desc.Jobs[g] = append(desc.Jobs[g], job{Schema: si, Label: w.schemas[si].Name, Input: in, InHex: hex.EncodeToString(in)})
+		}
+	}
+	return
+}
+
+var mixCounter int
+
 func genMix(r *vh.Rng, w *workload) (desc mixDesc) {
-	if r.Chance(0.3) {
+	// every run has all three kinds of mixes, in rotation
+	mixCounter++
+	switch mixCounter % 3 {
+	case 1:
 		return genContention(r, w)
+	case 2:
+		return genFormats(r, w)
 	}
 	desc.Kind = "mixed"
 	desc.Procs = []int{1, 2, 16}[r.Pick(3)]
@@ -532,6 +606,10 @@ func execMix(desc mixDesc, w0 *workload) (fails [][2]string, seqs [][]int64, c0,
 	if len(w.schemas) != len(w0.schemas) || len(wAlone.schemas) != len(w0.schemas) {
 		fails = append(fails, [2]string{"workload schemas could not be rebuilt", ""})
 		return
+	}
+	if desc.Kind == "formats" {
+		// deterministic first: transforms in flight taking turns on one goroutine
+		fails = append(fails, handoff(w, wAlone)...)
 	}
 	// configuration of the process-wide state: set before any goroutine starts
 	runtime.GOMAXPROCS(desc.Procs)
@@ -601,6 +679,7 @@ func execMix(desc mixDesc, w0 *workload) (fails [][2]string, seqs [][]int64, c0,
 	// ---- each transform alone (fresh Schema objects, nothing else running) ----
 	for g := range desc.Jobs {
 		for _, j := range desc.Jobs[g] {
+			idr.VerifResetNodePool() // alone: not even another transform's released nodes
 			tr, _, _ := runJob(wAlone.schemas[j.Schema], j.Input)
 			expected[g] = append(expected[g], tr)
 		}
@@ -744,6 +823,12 @@ func main() {
 			}
 			if _, serr := os.Stat(filepath.Join(o.Out, "summary.json")); serr != nil || true {
 				sum := vh.NewSummary("C14", o, "worker process died")
+				if pb, perr := os.ReadFile(filepath.Join(o.Out, "summary.json")); perr == nil {
+					var partial vh.Summary
+					if json.Unmarshal(pb, &partial) == nil {
+						sum.Failures = append(sum.Failures, partial.Failures...) // what it found before it died
+					}
+				}
 				text := string(out)
 				if i := strings.Index(text, "fatal error:"); i >= 0 {
 					text = text[i:]
@@ -779,6 +864,14 @@ func main() {
 		return
 	}
 	total := o.Count(100, 4000)
+	// prologue, single goroutine, fully deterministic: transforms in flight taking turns
+	for _, f := range handoff(w, buildWorkload(nil)) {
+		sum.Fail(f[0], map[string]interface{}{"kind": "handoff", "what": f[0]}, f[1])
+	}
+	reset()
+	if len(sum.Failures) > 0 {
+		sum.Write(o) // kept by the parent should this process die later on
+	}
 	{ // what the workload looks like: the first results of each schema run alone
 		r0 := vh.NewRng(o.Seed + 7777)
 		sample := map[string][]string{}
@@ -892,4 +985,89 @@ func replay(o *vh.Opts, w *workload) {
 	reset()
 	fmt.Printf("%d goroutines, GOMAXPROCS %d, node pool %v, js caches %s: %d failure(s) in 20 runs\n",
 		f.Case.Goroutines, f.Case.Procs, f.Case.NodePool, f.Case.JSCache, bad)
+}
+
+// ---- deterministic hand-off between transforms in flight ------------------------------------------------
+
+type stepper struct {
+	t    omniparser.Transform
+	name string
+	out  []string
+	done bool
+}
+
+func newStepper(ss *sharedSchema, in []byte) *stepper {
+	name := nextName("in")
+	t, err := ss.Schema.NewTransform(name, bytes.NewReader(in), &transformctx.Ctx{})
+	if err != nil {
+		return &stepper{name: name, out: []string{"NewTransform: " + strings.ReplaceAll(err.Error(), name, "IN")}, done: true}
+	}
+	return &stepper{t: t, name: name}
+}
+
+func (s *stepper) read(n int) {
+	defer func() {
+		if p := recover(); p != nil {
+			s.out = append(s.out, fmt.Sprintf("PANIC: %v", p))
+			s.done = true
+		}
+	}()
+	for i := 0; i < n && !s.done; i++ {
+		b, err := s.t.Read()
+		switch {
+		case err == io.EOF:
+			s.out = append(s.out, "EOF")
+			s.done = true
+		case err != nil:
+			s.out = append(s.out, "ERR: "+strings.ReplaceAll(err.Error(), s.name, "IN"))
+			if !errs.IsErrTransformFailed(err) {
+				s.done = true
+			}
+		default:
+			s.out = append(s.out, "OK: "+string(b))
+		}
+	}
+}
+
+// Two or three transforms are in flight on ONE goroutine and take turns: A reads a few records,
+// B starts and reads, A continues ...  Pairs: the two XML partners (same namespace URI, different
+// prefixes), and a tree format with a flat format (node pool hand-over).  Each transcript must
+// equal the one of the same transform driven alone.
+func handoff(w, wAlone *workload) (fails [][2]string) {
+	idx := func(ws *workload, name string) int {
+		for i, s := range ws.schemas {
+			if s.Name == name {
+				return i
+			}
+		}
+		return -1
+	}
+	r := vh.NewRng(int64(mixCounter) + 99)
+	for _, pair := range [][2]string{{"nsA", "nsB"}, {"nsB", "nsA"}, {"nsA", "fx-csv"}, {"fx-json", "fx-fixed-length"}, {"nsB", "fx-edi"}} {
+		ia, ib := idx(w, pair[0]), idx(w, pair[1])
+		if ia < 0 || ib < 0 {
+			continue
+		}
+		inA, inB := w.gen[ia](r, 7), w.gen[ib](r, 5)
+		idr.VerifSetNodeCaching(true)
+		idr.VerifResetNodePool()
+		a := newStepper(w.schemas[ia], inA)
+		a.read(2)
+		b := newStepper(w.schemas[ib], inB)
+		b.read(2)
+		a.read(3)
+		b.read(100)
+		a.read(100)
+		for k, st := range []*stepper{a, b} {
+			idr.VerifResetNodePool()
+			name, in, si := pair[k], [][]byte{inA, inB}[k], []int{ia, ib}[k]
+			alone := newStepper(wAlone.schemas[si], in)
+			alone.read(1000)
+			if !reflect.DeepEqual(alone.out, st.out) {
+				fails = append(fails, [2]string{fmt.Sprintf("hand-off %s <-> %s on one goroutine: the transcript of %s differs from the same transform driven alone", pair[0], pair[1], name),
+					diffFirst(alone.out, st.out) + fmt.Sprintf(" (alone: %d results, interleaved: %d)", len(alone.out), len(st.out))})
+			}
+		}
+	}
+	return
 }
